@@ -128,6 +128,11 @@ CLAIMED = {
    note=TB + "The unreachable debug_asserts arms are not proved unreachable in Coq; they are exercised by running every configuration in a debug build (debug assertions on). Shapes are restricted to containers nanoserde 0.1.37 can encode so that the same workload compiles under every set.",
    technique="Coq proof parametric in all hash iteration orders + pinned cfg(feature) sites + enumeration of feature sets (exhaustive in thorough)",
    design="5/C16"),
+ 'C17': dict(
+   text="PARTIAL. Proved (Coq): the macro's field-type parser (derive/src/parse.rs::next_type transcribed branch by branch on proc-macro token trees) consumes every well-formed type of the grammar of supported field types (paths, nested generics, references with/without lifetimes, tuples incl. unit and 1-tuples, arrays with literal or named length, never, lifetime arguments) EXACTLY, in every legal context, never panics, and yields the tree the templates expect (parse_complete; option_is_recognised). The proof itself produced finding D10 (a reference to a reference is not one type). TESTED, not proved: that rustc accepts the expansion and that the result obeys C01 — generated declarations (struct/field visibility, generic type/lifetime/const parameters with inline bounds, where clauses, defaults, doc comments, foreign attributes, raw-identifier fields, every difference attribute in several spellings incl. trailing commas, expose, enums with unit/tuple/struct variants) are compiled against /repo and each runs a round-trip + frame + diff_ref + self-diff test. Tie of the parser model: /repo's own parser (included by path in a proc-macro) and the extracted model parse the same generated token trees. Known-bad constructs are compiled one by one: listed findings print KNOWN-FINDING, anything else is a violation.",
+   note=TB + "Found and repaired D4 (commit b511edd: raw identifiers in composed names) and D7 (commit 23b505e: trailing comma in attribute lists). Known findings kept (not small/safe repairs): D5 (all fields skipped / empty struct), D6 (recurse on a generic-typed field), D8 (parameter used only behind a reference), D9 (bare reference field), D10 (reference to reference). The generics splitting, identifier formation and scoping of the expansion are not modelled in Coq; they are exercised by the compile test.",
+   technique="Coq proof of the type parser (nested induction over the grammar) + parser dump vs extracted model + compile-and-run of generated declarations (test) + known-findings list",
+   design="5/C17"),
 }
 NA_REASON = "check not wired into the manifest yet at this commit (build in progress; see DESIGN.md section 5 for the planned theorem and tie)"
 
